@@ -5,6 +5,7 @@ import (
 	"bytes"
 	"fmt"
 	"io"
+	"strings"
 	"unicode/utf8"
 
 	"github.com/gobwas/ws"
@@ -249,6 +250,21 @@ func checkClose(c *mon.C, entry string, side ref.Side, payload []byte, plan xpor
 	det["reply_code"] = rcode
 	ce, isClosed := err.(wsutil.ClosedError)
 	_, isProto := err.(ws.ProtocolError)
+	if isClosed && len(payload) >= 2 {
+		// The application keeps the returned error while the connection code goes on
+		// using the library (same-sized control frames through the same entry, so any
+		// pooled scratch memory is handed out again): code and reason must not change.
+		before := strings.Clone(ce.Reason)
+		scrub := bytes.Repeat([]byte{'Z'}, len(payload))
+		scrub[0], scrub[1] = 0x03, 0xe8
+		runControl(c, entry, side, ref.OpClose, scrub, plan)
+		runControl(c, entry, side, ref.OpPing, bytes.Repeat([]byte{'Q'}, len(payload)), plan)
+		if ce.Reason != before {
+			det["reason_when_returned"], det["reason_after_later_frames"] = fmt.Sprintf("%x", before), fmt.Sprintf("%x", ce.Reason)
+			c.Fail(sigp+"/returned-reason-mutated", "the reason held by the returned ClosedError changed after later control frames were handled", det)
+			return false
+		}
+	}
 	expectEcho := func() bool {
 		if !isClosed || uint16(ce.Code) != code || ce.Reason != string(reason) {
 			c.Fail(sigp+"/returned", fmt.Sprintf("returned %T %v, want ClosedError{%d, reason}", err, err, code), det)
